@@ -174,6 +174,12 @@ func analyseMapRange(mr mapRange) (findings []detFinding, accepted []string) {
 	walkList := func(l []ast.Stmt, guard []ast.Expr) {
 		for _, s := range l {
 			walk(s, guard)
+			// `if cond { ...; continue }`: what follows in the same list runs only when cond is false
+			if is, ok := s.(*ast.IfStmt); ok && is.Else == nil && is.Init == nil && len(is.Body.List) > 0 {
+				if br, ok := is.Body.List[len(is.Body.List)-1].(*ast.BranchStmt); ok && br.Tok == token.CONTINUE {
+					guard = append(append([]ast.Expr{}, guard...), &ast.UnaryExpr{Op: token.NOT, X: &ast.ParenExpr{X: is.Cond}})
+				}
+			}
 		}
 	}
 	walk = func(n ast.Node, guard []ast.Expr) {
@@ -553,11 +559,6 @@ func isArgmaxGuardSemantic(mr mapRange, guard []ast.Expr, as *ast.AssignStmt, ke
 		})
 		return u
 	}
-	for _, g := range guard[:len(guard)-1] {
-		if usesBest(g) {
-			return false
-		}
-	}
 	var conj []ast.Expr
 	var split func(e ast.Expr)
 	split = func(e ast.Expr) {
@@ -569,16 +570,23 @@ func isArgmaxGuardSemantic(mr mapRange, guard []ast.Expr, as *ast.AssignStmt, ke
 		}
 		conj = append(conj, e)
 	}
-	split(guard[len(guard)-1])
-	n := 0
+	for _, g := range guard {
+		split(g)
+	}
+	// the conjunction of every conjunct that looks at the carried state is what decides the replacement
+	var deciding ast.Expr
 	for _, cj := range conj {
 		if !usesBest(cj) {
 			continue
 		}
-		n++
-		if !semanticArgmaxGuard(mr.Prog, info, cj, keyObj.Name(), best.Name(), bestField) {
-			return false
+		if deciding == nil {
+			deciding = cj
+		} else {
+			deciding = &ast.BinaryExpr{X: deciding, Op: token.LAND, Y: cj}
 		}
 	}
-	return n == 1
+	if deciding == nil {
+		return false
+	}
+	return semanticArgmaxGuard(mr.Prog, info, deciding, keyObj.Name(), best.Name(), bestField)
 }
